@@ -80,6 +80,23 @@ def ion_param(c):
     return "\n".join(out) + "\n"
 
 
+def rhd_param(c):
+    """photon part of a task-based radiation-hydrodynamics step (one hydro step, discrete source)"""
+    dens = "DensityFunction:\n  type: Homogeneous\n  density: %s m^-3\n  temperature: 100. K\n  neutral fraction H: 1.\n" % c.get("density", "3.e21")
+    p = simrun.hydro_param(c["layout"], c["per"], cells_per_subgrid=(2, 2, 2), total_time=0.002, density=dens)
+    p = p.replace("  do radiation: false\n", "  do radiation: true\n  number of photons: %d\n  number of iterations: %d\n  source copy level: %d\n  diffuse field: %s\n"
+                  % (c["N"], c.get("iters", 2), c.get("copy", 0), b(c.get("diffuse"))))
+    x, y, z, lum = c["sources"][0]
+    p += "PhotonSourceDistribution:\n  type: SingleStar\n  position: [%r m, %r m, %r m]\n  luminosity: 1.e10 s^-1\n" % (x, y, z)
+    p += "PhotonSourceSpectrum:\n  type: Monochromatic\n  frequency: 3.28847e+15 Hz\n"
+    p += "Abundances:\n  helium: 0.\nTemperatureCalculator:\n  do temperature calculation: false\n"
+    if c.get("diffuse"):
+        p += "DiffuseReemissionHandler:\n  type: FixedValue\n  reemission probability: %s\n" % c.get("reprob", "0.5")
+    p += "CrossSections:\n  type: FixedValue\n  hydrogen_0: 6.3e-18 cm^2\n" + "\n".join("  %s: 0. m^2" % i for i in ZERO_IONS) + "\n"
+    p += "RecombinationRates:\n  type: FixedValue\n  hydrogen_1: 4.e-13 cm^3 s^-1\n" + "\n".join("  %s: 0. m^3 s^-1" % i for i in ZERO_REC) + "\n"
+    return p
+
+
 def sources_yml(srcs):
     s = "number of sources: %d\n" % len(srcs)
     for i, (x, y, z, lum) in enumerate(srcs):
@@ -136,7 +153,10 @@ def run_config(binary, c, threads, jitter=None, trace=True, timeout=60):
         if jitter:
             env["LD_PRELOAD"] = JITTER_LIB[0]
             env["CMAC_VERIF_JITTER"] = jitter
-        res = simrun.run_sim(binary, ion_param(c), ["--task-based"], threads=threads, timeout=timeout, trace=trace, env=env, workdir=d)
+        if c.get("rhd"):
+            res = simrun.run_sim(binary, rhd_param(c), ["--task-based-rhd", "--number-of-steps", "1"], threads=threads, timeout=timeout, trace=trace, env=env, workdir=d)
+        else:
+            res = simrun.run_sim(binary, ion_param(c), ["--task-based"], threads=threads, timeout=timeout, trace=trace, env=env, workdir=d)
         res["diagnostics"] = sorted(f for f in os.listdir(d) if f.startswith("diagnostics_"))
         return res
     finally:
@@ -531,8 +551,8 @@ JITTERS_PLAIN = ["pre_subtract=1000=3000,cas_lock=30=4000", "pre_subtract=700=20
 
 
 def describe(c, threads, jitter):
-    return "%s subgrids %s periodic %s N=%d iterations=%d copy level %d diffuse=%s threads=%d%s" % (
-        c.get("mode"), "x".join(str(x) for x in c["layout"]), "".join("ty"[0] if p else "n" for p in c["per"]), c["N"], c.get("iters", 2),
+    return "%s%s subgrids %s periodic %s N=%d iterations=%d copy level %d diffuse=%s threads=%d%s" % (
+        "RHD " if c.get("rhd") else "", c.get("mode"), "x".join(str(x) for x in c["layout"]), "".join("ty"[0] if p else "n" for p in c["per"]), c["N"], c.get("iters", 2),
         c.get("copy", 0), c.get("diffuse"), threads, " jitter=" + jitter if jitter else "")
 
 
@@ -540,9 +560,10 @@ def run_and_check(ctx, E, binary, job, drv_jobs):
     """job = dict(cfg, threads, jitter (or None), trace (bool)); returns nothing, records into ctx"""
     c, threads, jitter, trace = job["cfg"], job["threads"], job.get("jitter"), job.get("trace", True)
     res = job["res"]
-    rep = {"config": c, "threads": threads, "jitter": jitter, "trace_on": trace, "param": ion_param(c),
+    rep = {"config": c, "threads": threads, "jitter": jitter, "trace_on": trace, "param": rhd_param(c) if c.get("rhd") else ion_param(c),
            "sources_yml": sources_yml(c["sources"]) if len(c.get("sources", [])) > 1 else None,
-           "cmd": "%sCMacIonize --params run.param --task-based --threads %d" % (("LD_PRELOAD=libc01_jitter.so CMAC_VERIF_JITTER=%s " % jitter) if jitter else "", threads)}
+           "cmd": "%sCMacIonize --params run.param %s --threads %d" % (("LD_PRELOAD=libc01_jitter.so CMAC_VERIF_JITTER=%s " % jitter) if jitter else "",
+                                                                   "--task-based-rhd --number-of-steps 1" if c.get("rhd") else "--task-based", threads)}
     ctx.count()
     stream = "jitter" if jitter else "photon"
     st = ctx.cov["correspondence_streams"].setdefault(stream, {"runs": 0, "lines": 0, "mismatches": 0, "oracle_failures": 0})
@@ -560,7 +581,7 @@ def run_and_check(ctx, E, binary, job, drv_jobs):
         st["oracle_failures"] += 1
         return
     if not trace:
-        if len(res.get("diagnostics", [])) != c.get("iters", 2):
+        if not c.get("rhd") and len(res.get("diagnostics", [])) != c.get("iters", 2):
             ctx.violation("photon:run-failed", "the run ended after %d of %d iterations (%s)" % (len(res.get("diagnostics", [])), c.get("iters", 2), what), rep)
         return
     its = split_iterations(res["trace"])
@@ -571,12 +592,19 @@ def run_and_check(ctx, E, binary, job, drv_jobs):
                  nontrivial=(c["layout"] != (1, 1, 1) or c.get("diffuse") or c["N"] > 200))
     for it in its:
         bad = trace_oracles(E, it)
+        if c.get("rhd"):
+            # the radiation-hydrodynamics loop keeps its (finished) temperature tasks until the end of the hydro step
+            bad = [(("photon:rhd-task-slots-left-behind" if (k == "photon:task-left-behind" and "tasks in use" in tx) else k), tx) for (k, tx) in bad]
         for (key, text) in bad[:4]:
             st["oracle_failures"] += 1
             ctx.violation(key, "%s (%s)" % (text, what), dict(rep, trace=[" ".join([k] + [str(x) for x in v]) for (k, v) in it["events"] if k != "PG"][:3000]))
         ops, exp = iteration_ops(E, it)
-        drv_jobs.append((ops, exp, rep, what, it["PI"][0], bool(bad)))
-        if bad:
+        only_leak = bool(bad) and all(k == "photon:rhd-task-slots-left-behind" for (k, _) in bad)
+        if only_leak:
+            # the leaked slots do not disturb the protocol: replay everything, compare the end record without its task count
+            exp[-1] = re.sub(r"tasks=\d+", "tasks=0", exp[-1])
+        drv_jobs.append((ops, exp, rep, what, it["PI"][0], bool(bad) and not only_leak))
+        if bad and not only_leak:
             break      # later iterations start from a dirty state
     if len(ctx.cov["samples"]) < 5:
         ctx.sample({"config": what, "trace_lines": len(res["trace"]), "head": [l for l in res["trace"] if " PG " not in l][:8]})
@@ -651,6 +679,13 @@ def make_jobs(ctx):
     jobs = corpus_jobs() + fixed_jobs()
     for _ in range(ctx.budget(26, 330)):
         jobs.append(dict(cfg=random_config(ctx.rng, quick=not ctx.thorough), threads=ctx.rng.choice([1, 2, 4, 8]), jitter=None))
+    # the photon loop of the radiation-hydrodynamics simulation (same contexts, discrete source only)
+    for _ in range(ctx.budget(3, 40)):
+        layout = tuple(ctx.rng.choice([1, 2, 2, 3]) for _ in range(3))
+        c = dict(rhd=True, layout=layout, per=tuple(ctx.rng.random() < 0.4 for _ in range(3)), N=ctx.rng.choice([1, 199, 201, 401, 1000]), iters=ctx.rng.choice([1, 2, 3]),
+                 copy=ctx.rng.choice([0, 1, 2]), diffuse=ctx.rng.random() < 0.5, reprob=ctx.rng.choice(["0.3", "0.5", "0.8"]),
+                 sources=[(round(ctx.rng.uniform(0.05, 0.95), 3), round(ctx.rng.uniform(0.05, 0.95), 3), round(ctx.rng.uniform(0.05, 0.95), 3), "1.e10")], mode="discrete")
+        jobs.append(dict(cfg=c, threads=ctx.rng.choice([1, 2, 4, 8]), jitter=None))
     # seeded scheduling jitter, traced (replayed through the model) ...
     one = dict(layout=(1, 1, 1), per=(False, False, False), copy=0, sources=[], continuous=True, diffuse=False, density="0.02", seed=7, mode="continuous")
     for k in range(ctx.budget(10, 80)):
@@ -680,7 +715,7 @@ def run(ctx):
     ctx.assumptions += [
         "a task's bookkeeping (commit) is one atomic step of an interleaving semantics: it runs under the subgrid lock (C08 proves the locks); the trace hook H2 wraps the commit and its log record in one mutex region, so the log order is a valid order of the commits",
         "the physics inside a task is abstracted: exit direction of every packet, re-emission decision and target subgrid of a continuous-source packet are universally quantified inputs of the labels",
-        "capacities of the buffer pool, task table and queues are not exhausted (free ids are label parameters; no_stuck is not proved, see note)",
+        "capacities of the buffer pool, task table and queues are not exhausted (free ids are label parameters; no_stuck assumes two free buffers and nblocks+1 free task slots)",
         "sequentially consistent atomics; the non-atomic read pair (is_empty, num_photon_done) of the termination test is modelled as one read (the hook order makes every logged PZ consistent, replay checks it)",
         "--task-plot is off (otherwise tasks are deliberately kept until the end of the iteration)",
         "the photon loop of TaskBasedRadiationHydrodynamicsSimulation.cpp is covered at the protocol level (no continuous source => no task can be obtained after the flag was cleared, theorem after_termination_only_packet_free_tasks); its traces are not replayed in the quick tier",
@@ -708,13 +743,22 @@ def run(ctx):
             return run_config(binary, j["cfg"], j["threads"], jitter=j.get("jitter"), trace=j.get("trace", True), timeout=j["timeout"])
         except Exception as e:  # noqa
             return dict(rc=-1, timed_out=False, log="run failed to start: %r" % (e,), trace=[], diagnostics=[])
-    with ThreadPoolExecutor(max_workers=ctx.budget(4, 6)) as ex:
-        results = list(ex.map(work, jobs))
     drv_jobs = []
-    hung = 0
-    for j, res in zip(jobs, results):
-        j["res"] = res
-        run_and_check(ctx, E, binary, j, drv_jobs)
+    chunk = 8
+    skipped = 0
+    with ThreadPoolExecutor(max_workers=ctx.budget(4, 6)) as ex:
+        for k in range(0, len(jobs), chunk):
+            part = jobs[k:k + chunk]
+            # a defect that makes runs hang costs a time-out per run: stop once it is established
+            fails = sum(st.get("oracle_failures", 0) for name, st in ctx.cov["correspondence_streams"].items() if name != "dps")
+            if fails >= 3 or len(ctx.violations) >= 6:
+                skipped += len(part)
+                continue
+            for j, res in zip(part, list(ex.map(work, part))):
+                j["res"] = res
+                run_and_check(ctx, E, binary, j, drv_jobs)
+    if skipped:
+        ctx.notes.append("%d of %d runs skipped after the first violations" % (skipped, len(jobs)))
     if ok:
         replay_traces(ctx, drv_jobs)
     missing = [b for b in EXPECTED_BRANCHES if b not in ctx.cov["branch_histogram"]]
@@ -765,6 +809,6 @@ def replay(ctx, path):
 
 MANIFEST = dict(
     category="proof",
-    text="Lean theorems over EVERY execution of the photon-packet protocol of a task-based photoionization iteration (arbitrary interleaving of the committed task actions, any number of threads, any subgrid layout / periodicity / copy wiring, discrete and continuous sources, re-emission on or off, any packet number, physics outcome of every task universally quantified): exact split of the requested number over sources and subgrid copies (split_total, batches_total); conservation N = done + sources + source tasks + buffers in use + continuous buffers (conservation); every buffer in use has exactly one owner, a task or one active-buffer entry, with 1..200 resp. 1..199 packets (ownership); no packet terminated twice, each exactly once when done = N (exactly_once, ghost packet identifiers); run flag cleared => done = N and no buffer, active buffer, source or continuous-buffer content left (termination_sound); on top, the worker loop of the threads (lstep, loop condition after fix f78e960): a dequeued task always has a live holder and when all threads have left the loop NO task, queue entry, lock or buffer is left (nothing_left_behind). Tied to the code by replaying every record of the hook-H2 trace of real multi-thread CMacIonize --task-based runs (also under seeded scheduling jitter) through the same Lean step function, by the same statements evaluated directly on the trace, and by a differential test of DistributedPhotonSource.",
-    note="Trusted: Lean kernel + 3 axioms; hand model of the seven task contexts, MemorySpace::add_photons, the photon loop and DistributedPhotonSource; task-level atomicity of commits (lock discipline is C08) and sequentially consistent atomics; the trace hook serialises commit bookkeeping (not the physics) through one mutex. NOT proved: no_stuck (done < N => some label enabled) and termination with probability 1 under re-emission; capacities of buffer pool / task table / queues are assumed sufficient. A run that does not finish within 60-90 s or dies is reported as a violation. The RHD photon loop is covered by the protocol theorems only (discrete sources: no task exists after termination).",
+    text="Lean theorems over EVERY execution of the photon-packet protocol of a task-based photoionization iteration (arbitrary interleaving of the committed task actions, any number of threads, any subgrid layout / periodicity / copy wiring, discrete and continuous sources, re-emission on or off, any packet number, physics outcome of every task universally quantified): exact split of the requested number over sources and subgrid copies (split_total, batches_total); conservation N = done + sources + source tasks + buffers in use + continuous buffers (conservation); every buffer in use has exactly one owner, a task or one active-buffer entry, with 1..200 resp. 1..199 packets (ownership); no packet terminated twice, each exactly once when done = N (exactly_once, ghost packet identifiers); run flag cleared => done = N and no buffer, active buffer, source or continuous-buffer content left (termination_sound); the cached largest active buffer of a subgrid is always a real, largest one (premature_safe); the continuous-source counter is exact and buffers are flushed exactly when it is zero (continuous_bookkeeping); done < N => some label is enabled while capacities are not exhausted (no_stuck); on top, the worker loop of the threads (lstep, loop condition after fix f78e960): a dequeued task always has a live holder and when all threads have left the loop NO task, queue entry, lock or buffer is left (nothing_left_behind). Tied to the code by replaying every record of the hook-H2 trace of real multi-thread CMacIonize --task-based runs (also under seeded scheduling jitter) through the same Lean step function, by the same statements evaluated directly on the trace, and by a differential test of DistributedPhotonSource.",
+    note="Trusted: Lean kernel + 3 axioms; hand model of the seven task contexts, MemorySpace::add_photons, the photon loop and DistributedPhotonSource; task-level atomicity of commits (lock discipline is C08) and sequentially consistent atomics; the trace hook serialises commit bookkeeping (not the physics) through one mutex. NOT proved: termination (with re-emission it only holds with probability 1; no_stuck is the provable part); capacities of buffer pool / task table / queues are assumed sufficient. A run that does not finish within 60-90 s or dies is reported as a violation. The RHD photon loop is covered by the protocol theorems only (discrete sources: no task exists after termination).",
     technique="Lean 4 proof (inductive invariant + weight function generic in a packet weight: length gives conservation, indicator gives exactly-once; thread-loop invariant on top) + trace refinement check against the real hooked binary under scheduling jitter + differential harness")
